@@ -1,3 +1,5 @@
+/* HARNESS replaces: scram.c */
+/* HARNESS extra: wrap_scram.c */
 /* engine hash (C17):
      sha1|sha256|sha512|md5 <inject> <chunk>*   -> = <digest> <bits-before-final hex> <buffered>
          inject: "-" or a block-aligned 64-bit bit count (hex) written into the fresh context
